@@ -105,6 +105,17 @@ func c15Generate(c *mon.Ctx) {
 		}
 	}
 
+	// long messages (beyond any stack buffer a hashing function may use for short ones)
+	for _, fn := range c15HashFns {
+		for i, ml := range []int{600, 900, 1024, 1025, 2000, 5000, 70000} {
+			for _, mode := range []string{"trap", "canary"} {
+				fn, mode, lay := fn, mode, []string{"exact", "spare8", "interior", "spare64"}[i%4]
+				msg, dst := pat(ml, byte(i)), pat([]int{20, 300}[i%2], 3)
+				c.Structured(func() any { return &c15Case{Kind: "bytes", Fn: fn, Mode: mode, Layout: lay, Msg: msg, Dst: dst} })
+			}
+		}
+	}
+
 	// decoders: valid and invalid inputs
 	g := oracle.G()
 	inputs := []string{
@@ -523,6 +534,9 @@ func c15RunPtr(c *mon.Ctx, cs *c15Case) {
 		sb.S = oracle.Limbs(new(big.Int).Sub(oracle.R, big.NewInt(1+int64(cs.U%1000))))
 	}
 
+	// the arguments as the API shows them, read before the call (whatever the library memoises in them is then filled)
+	encEA, encSA, encSB := ea.Encode(), sa.Encode(), sb.Encode()
+
 	eb, sab, sbb := mon.Snap(ea), sa.S, sb.S
 	e := cs.E.Build()
 	s := mon.Scal(mon.BigH(cs.S))
@@ -605,6 +619,25 @@ func c15RunPtr(c *mon.Ctx, cs *c15Case) {
 
 	if mon.Snap(ea) != eb || sa.S != sab || sb.S != sbb {
 		c.Fail(fmt.Sprintf("%s changed the stored limbs of an argument", cs.Fn), "write-to-argument:"+cs.Fn, nil)
+		return
+	}
+
+	// "keep their value" also afterwards: the receiver is now worked on, and the arguments must still read the same through
+	// the API (a receiver that shares anything with its argument gives itself away here)
+	if pan, pv := mon.Call(func() {
+		e.Negate()
+		_ = e.Encode()
+		e.Double().Add(secp256k1.Base())
+		_, _ = e.Encode(), e.EncodeUncompressed()
+		s.Add(secp256k1.NewScalar().One()).Square()
+		_, _ = s.Encode(), s.Bits()
+	}); pan {
+		c.Fail(fmt.Sprintf("working on the receiver after %s panicked: %v", cs.Fn, pv), "ptr-arg-panic:"+cs.Fn, nil)
+		return
+	}
+
+	if !bytes.Equal(ea.Encode(), encEA) || !bytes.Equal(sa.Encode(), encSA) || !bytes.Equal(sb.Encode(), encSB) || mon.Snap(ea) != eb || sa.S != sab || sb.S != sbb {
+		c.Fail(fmt.Sprintf("after %s, changing the RECEIVER changed what an argument encodes to: the receiver shares state with its argument", cs.Fn), "argument-shares-state:"+cs.Fn, nil)
 	}
 }
 
